@@ -1844,7 +1844,10 @@ class NetCDFWrite(IOWrite):
         {}
 
         """
-        if self.implementation.get_data_shape(bounds)[1] == 1:
+        if (
+            self.implementation.get_data_shape(bounds)[1] == 1
+            and self.implementation.get_interior_ring(coord) is None
+        ):
             # No part node count variable required
             return {}
 
